@@ -5,3 +5,4 @@ import UvModel.Props.C20
 import UvModel.Props.C04Timer
 import UvModel.Props.C12
 import UvModel.Props.C11
+import UvModel.Props.C10
